@@ -140,13 +140,17 @@ func GoGuard(site string) func() {
 // live counts the goroutines git-bug has spawned that have not returned yet.
 var live atomic.Int64
 
-// TakePanicsQuiesced is TakePanics once every goroutine git-bug spawned has returned: a
-// goroutine that panics closes its result channel (a deferred call) before its panic is
-// recorded, so the reader of that channel would otherwise race with the record. Gives up
-// after a real-time bound (goroutines that legitimately live on) and says so.
-func TakePanicsQuiesced() []PanicRecord {
-	deadline := time.Now().Add(time.Second)
-	for live.Load() > 0 {
+// LiveGoroutines tells how many goroutines git-bug spawned have not returned yet.
+func LiveGoroutines() int64 { return live.Load() }
+
+// TakePanicsQuiesced is TakePanics once the goroutines git-bug spawned since the caller read
+// LiveGoroutines (base) have returned: a goroutine that panics closes its result channel (a
+// deferred call) before its panic is recorded, so the reader of that channel would otherwise
+// race with the record. Gives up after a real-time bound (a goroutine left blocked for good by
+// an abandoned channel) and counts that.
+func TakePanicsQuiesced(base int64) []PanicRecord {
+	deadline := time.Now().Add(500 * time.Millisecond)
+	for live.Load() > base {
 		if time.Now().After(deadline) {
 			QuiesceTimeouts.Add(1)
 			break
